@@ -222,7 +222,7 @@ def build_harness(name="l1", race=False):
 EXTRA_PROPERTY_FILES = {
     "C01": ["C01views", "RefFin"],
     "C03": ["RefFin"],
-    "C04": ["RefFin"],
+    "C04": ["RefFin", "RefLat"],
     "C02": ["RefMod"],
     "C05": ["Refine", "RefMod"],
     "C06": ["C06own", "RefMod"],
